@@ -170,12 +170,15 @@ pub fn run(case: &Case) -> Outcome {
     let (mpmc_tx, mpmc_rx) = mpmc::channel::<usize>();
     let (sel_tx, sel_rx) = mpsc::channel::<usize>();
     let (sock_a, sock_b) = may::os::unix::net::UnixStream::pair().unwrap();
+    // the target's socket can be used by a bystander after the target is through with it
+    let sock_a = Arc::new(std::sync::Mutex::new(sock_a));
     let target_co: Arc<std::sync::Mutex<Option<may::coroutine::Coroutine>>> = Arc::new(std::sync::Mutex::new(None));
     // when cancel() has returned (logical stamp), for the "stops at the next blocking call" rule
     let cancel_done = Arc::new(AtomicU64::new(u64::MAX));
 
     // ---- target ----
     let yield_in_drop = case.cfg(2) == 1;
+    let sock_a2 = sock_a.clone();
     let target = {
         let (sh, log, states, ledger) = (sh.clone(), log.clone(), states.clone(), ledger.clone());
         let ops = target_ops.clone();
@@ -199,7 +202,7 @@ pub fn run(case: &Case) -> Outcome {
                 let _second = if hold_second { Some(sh.held.lock().unwrap()) } else { None };
                 states.enter(0, 0, PRE);
                 gate_wait(&sh);
-                let mut sock = sock_a;
+                let sock = sock_a2;
                 let mut sel_rx = Some(sel_rx);
                 for (i, op) in ops.iter().enumerate() {
                     states.enter(0, i, op.0);
@@ -230,7 +233,8 @@ pub fn run(case: &Case) -> Outcome {
                         T_RWWRITE => rw_section(&sh),
                         T_READ => {
                             let mut b = [0u8; 1];
-                            let _ = sock.read(&mut b);
+                            let mut g = sock.lock().unwrap_or_else(|e| e.into_inner());
+                            let _ = g.read(&mut b);
                         }
                         T_SELECT => {
                             let rx = sel_rx.take().unwrap();
@@ -337,6 +341,7 @@ pub fn run(case: &Case) -> Outcome {
                             }
                             T_READ => {
                                 let _ = sock_b.write_all(b"x");
+                                sched::kick_idle();
                             }
                             T_SELECT => {
                                 let _ = sel_tx.send(1);
@@ -354,6 +359,13 @@ pub fn run(case: &Case) -> Outcome {
                     if let Some(g) = g2.take() {
                         sh.occ_rw.fetch_sub(1, Ordering::SeqCst);
                         drop(g);
+                    }
+                    // the bystander that reads from the target's socket gets its byte once the
+                    // target has ended (its read blocks for as long as the target is around)
+                    if nb[T_READ as usize] > 0 {
+                        poll_until(|| states.reached(0, usize::MAX - 1), 30_000_000_000);
+                        let _ = sock_b.write_all(b"y");
+                        sched::kick_idle();
                     }
                     for k in [T_SEM, T_CV, T_MPMC, T_FLAG] {
                         if !tops.iter().any(|o| o.0 == k) {
@@ -380,11 +392,22 @@ pub fn run(case: &Case) -> Outcome {
                 let (sh, states) = (sh.clone(), states.clone());
                 let k = a.ops[0].0;
                 let rx = mpmc_rx.clone();
-                let h = spawn(a.ctx, "bystander", move || {
+                let sock = sock_a.clone();
+                let after = target_ops.iter().position(|o| o.0 == T_READ).map_or(0, |i| i + 1);
+                let h = spawn(if k == T_READ { CO } else { a.ctx }, "bystander", move || {
                     let _dg = DoneGuard(&states, ai);
                     gate_wait(&sh);
+                    if k == T_READ {
+                        // blocks in a read on the socket the target has read from before
+                        poll_until(|| states.reached(0, after), 30_000_000_000);
+                    }
                     states.enter(ai, 0, k);
                     match k {
+                        T_READ => {
+                            let mut b = [0u8; 1];
+                            let mut g = sock.lock().unwrap_or_else(|e| e.into_inner());
+                            let _ = g.read(&mut b);
+                        }
                         T_SEM => {
                             sh.sem.wait();
                             sh.sem_succ.fetch_add(1, Ordering::SeqCst);
@@ -554,7 +577,7 @@ pub fn run(case: &Case) -> Outcome {
 
 pub fn strategy(g: &GenCfg) -> BoxedStrategy<Case> {
     let g2 = g.clone();
-    let kinds = vec![T_PARK, T_SLEEP, T_LOCK, T_SEM, T_CV, T_MPSC, T_MPMC, T_JOIN, T_FLAG, T_RWWRITE, T_SELECT, T_YIELD];
+    let kinds = vec![T_PARK, T_SLEEP, T_LOCK, T_SEM, T_CV, T_MPSC, T_MPMC, T_JOIN, T_FLAG, T_RWWRITE, T_SELECT, T_YIELD, T_READ];
     let tops = proptest::sample::subsequence(kinds, 1..=4).prop_shuffle().prop_flat_map(|ks| {
         let n = ks.len();
         (Just(ks), proptest::collection::vec(1u32..600_000, n))
@@ -577,6 +600,17 @@ pub fn strategy(g: &GenCfg) -> BoxedStrategy<Case> {
             actors.push(Actor { ctx: gctx, role: 1, ops: gops });
             for (k, ctx) in bys {
                 actors.push(Actor { ctx, role: 2, ops: vec![Op(k, 0, 0)] });
+            }
+            // the target reads from a socket: half of the time a bystander blocks in a read
+            // on the same socket afterwards (the target's io registration is stale by then)
+            if ks.contains(&T_READ) && ks.last() != Some(&T_READ) && delays[0] % 2 == 0 {
+                actors.push(Actor { ctx: CO, role: 2, ops: vec![Op(T_READ, 0, 0)] });
+                // ... and the operation after the read is one that only the cancel can end
+                let j = ks.iter().position(|k| *k == T_READ).unwrap() + 1;
+                for g in actors[1].ops.iter_mut() {
+                    g.2 = 0;
+                }
+                actors[1].ops[j].2 = 1;
             }
             // always a canceller in this family
             let c = canc.unwrap_or(Actor { ctx: TH, role: 9, ops: vec![Op(20, 0, 1_000)] });
